@@ -609,6 +609,13 @@ fn try_spawn_input_processing<'scope>(
 
             resources.reuse_pool.unreserve(reservation);
         });
+
+        #[cfg(wild_verif)]
+        crate::verif::sm_adversary(
+            resources.unprocessed.is_empty(),
+            &resources.reuse_pool.available,
+            MERGE_STRING_BUCKETS,
+        );
     }
 }
 
